@@ -22,32 +22,64 @@ static int two_in_one_page(size_t n, int* s2) {
   }
   return -1;
 }
+/* a third block of the same class in the same page as `p`, or -1 */
+static int third_in_page(size_t n, void* p) {
+  for (int tries = 0; tries < 6; tries++) { int c = op_alloc_ex(A_malloc, n, 0, 0, 0, 0); if (c < 0) return -1; if (_mi_ptr_page(slots[c].p) == _mi_ptr_page(p)) return c; }
+  return -1;
+}
 static void misuse_double_free(void) {
   size_t n = sec_sizes[vf_randn(sizeof(sec_sizes) / sizeof(size_t))];
   int other = -1; int s = two_in_one_page(n, &other); if (s < 0) return;
   void* p = slots[s].p; int id = slots[s].id;
-  int samepage = (_mi_ptr_page(p) == _mi_ptr_page(slots[other].p));
-  op_free_slot(s, FR_free);                 /* the legitimate free */
+  /* position of the block in the page's lists at the second free: head of local_free with an empty / non-empty rest, behind a later
+     free, or moved to the free list by a collect (no allocation of this class in between: the block must still be free) */
+  int mode = (int)vf_randn(5);
+  int third = (mode == 1 || mode == 2 || mode == 4) ? third_in_page(n, p) : -1;
+  if (mode == 1 && third >= 0) op_free_slot(third, FR_free);     /* local_free is not empty when the block is freed */
+  op_free_slot(s, FR_free);                                       /* the legitimate free */
+  if (mode == 2 && third >= 0) op_free_slot(third, FR_free);     /* the block is no longer the head */
+  if (mode == 3 || mode == 4) { op_collect(); if (mode == 4 && third >= 0) op_free_slot(third, FR_free); }
+  int samepage = (slots[other].p != NULL && _mi_ptr_page(p) == _mi_ptr_page(slots[other].p));
   nerrs = 0;
   vf_in_call = 1; mi_free(p); vf_in_call = 0;          /* the second free */
-  vf_logf("{\"e\":\"misuse\",\"kind\":\"double_free\",\"id\":%d,\"samepage_live\":%s,\"cls\":\"\",\"k\":0,", id, samepage ? "true" : "false"); log_errs(); vf_logf("}"); vf_log_line_end();
+  vf_logf("{\"e\":\"misuse\",\"kind\":\"double_free\",\"id\":%d,\"samepage_live\":%s,\"cls\":\"m%d\",\"k\":0,", id, samepage ? "true" : "false", mode); log_errs(); vf_logf("}"); vf_log_line_end();
   nerrs = 0;
 }
 static void misuse_overflow(void) {
-  size_t n = 1 + (size_t)vf_randn(3000);
+  /* sizes: anything up to 3000, with the sizes below one word and around the word multiples over-represented; the block may have been
+     shrunk in place before (its padding was adjusted), and it may be freed by another thread */
+  size_t n;
+  switch (vf_randn(4)) { case 0: n = 1 + (size_t)vf_randn(8); break; case 1: n = 8 * (1 + (size_t)vf_randn(16)) + (size_t)vf_randn(3) - 1; break; default: n = 1 + (size_t)vf_randn(3000); }
   int s = op_alloc_ex(vf_randn(2) ? A_malloc : A_zalloc, n, 0, 0, 0, 0); if (s < 0) return;
+  int shrunk = 0;
+  if (n > 16 && vf_randn(4) == 0) {      /* shrink in place (less than half of the block is given up): the padding moves with the size */
+    size_t n2 = n - 1 - (size_t)vf_randn(n / 4);
+    void* before = slots[s].p;
+    op_realloc_ex(R_realloc, s, n2, -1, 0);
+    if (slots[s].p == NULL) return;
+    if (slots[s].p == before) shrunk = 1;
+    /* a block that stays in place keeps its size as far as the allocator is concerned (mi_usable_size is unchanged, the program may
+       use all of it): the overflow is placed behind that */
+    n = (shrunk ? mi_usable_size(slots[s].p) : slots[s].req);
+  }
   uint8_t* p = (uint8_t*)slots[s].p; int id = slots[s].id;
   mi_page_t* page = _mi_ptr_page(p);
   size_t ubs = mi_page_usable_block_size(page);            /* the padding structure starts at block + ubs */
   size_t limit = ubs + 4; if (limit > n + 16) limit = n + 16;   /* fill bytes and the canary, at most 16 bytes past the requested size */
   if (limit <= n) { op_free_slot(s, FR_free); return; }
   size_t k = (size_t)vf_randn(limit - n);
+  if (vf_randn(3) == 0) k = 0;                              /* the byte right behind the requested size */
   uint8_t oldb = p[n + k];
   uint8_t v; do { v = (uint8_t)vf_rand(); } while (v == oldb || v == 0xDE);
   p[n + k] = v;
   nerrs = 0;
+  int remote = (vf_randn(3) == 0);
+#if (MI_DEBUG > 0)
+  if (n + k >= ubs) remote = 0;     /* debug builds assert in _mi_padding_shrink after they reported a broken canary on a cross-thread free: outside the claim */
+#endif
+  if (remote) vf_free_in_thread = 1;
   op_free_slot(s, FR_free);
-  vf_logf("{\"e\":\"misuse\",\"kind\":\"overflow\",\"id\":%d,\"samepage_live\":false,\"cls\":\"%s\",\"k\":%zu,", id, (n + k < ubs ? "fill" : "canary"), k); log_errs(); vf_logf("}"); vf_log_line_end();
+  vf_logf("{\"e\":\"misuse\",\"kind\":\"overflow\",\"id\":%d,\"samepage_live\":false,\"cls\":\"%s%s%s\",\"k\":%zu,", id, (n + k < ubs ? "fill" : "canary"), remote ? ".remote" : "", shrunk ? ".shrunk" : "", k); log_errs(); vf_logf("}"); vf_log_line_end();
   nerrs = 0;
 }
 static void misuse_forged_link(void) {
